@@ -1,5 +1,6 @@
 from decimal import Decimal, InvalidOperation
 
+from typedpy.commons import wrap_val
 from .serializable_field import SerializableField
 from .numbers import Number
 
@@ -25,7 +26,10 @@ class DecimalNumber(Number, SerializableField):
         return float(value)
 
     def deserialize(self, value):
-        return Decimal(value)
+        try:
+            return Decimal(value)
+        except InvalidOperation as ex:
+            raise ValueError(f"Invalid value: {wrap_val(value)}") from ex
 
     @property
     def get_type(self):
